@@ -99,9 +99,13 @@ RA(N) == [Base EXCEPT !.states = <<S1>>, !.controls = <<Sym1>>,
                       !.params = <<[kind |-> "c", val |-> PVals(1, N)], [kind |-> "cp", val |-> PVals(3, N + 1)]>>,
                       !.rhs = <<Plus3(Times(P(1), X(1)), Times(P(2), Tm), U(1))>>]
 
+\* RB:  x' = 2x + u + vcp          (a per-interval variable with an entry of its own at the final node)
+RB(N) == [Base EXCEPT !.states = <<S1>>, !.controls = <<Sym1>>, !.vars = <<[kind |-> "cp", scale |-> One]>>,
+                      !.rhs = <<Plus3(Times(CI(2), X(1)), U(1), V(1))>>]
+
 RhsIds == {"R1", "R2", "R3", "R4", "R5", "R7"}
 Rhs(id, N) == CASE id = "R1" -> R1(N) [] id = "R2" -> R2(N) [] id = "R3" -> R3(N)
-                [] id = "R4" -> R4(N) [] id = "R5" -> R5(N) [] id = "R7" -> R7(N) [] id = "R6" -> R6(N) [] id = "R8" -> R8(N) [] id = "R3v" -> R3v(N) [] id = "RA" -> RA(N)
+                [] id = "R4" -> R4(N) [] id = "R5" -> R5(N) [] id = "R7" -> R7(N) [] id = "R6" -> R6(N) [] id = "R8" -> R8(N) [] id = "R3v" -> R3v(N) [] id = "RA" -> RA(N) [] id = "RB" -> RB(N)
 
 (***************************************************************************)
 (* Path / boundary constraints (all well-formed for every rhs above:       *)
@@ -121,12 +125,15 @@ KB == Con("kB", "ge", Plus(Off(X(1), 2), Off(U(1), -1)), CI(-9), "control", TRUE
 
 KR == Con("kR", "le", Times(X(1), Tm), CI(6), "roots", TRUE, TRUE)
 KS == Box("kS", CI(-8), Plus(X(1), U(1)), CI(8), "roots", TRUE, TRUE)
+\* next() of a per-interval quantity that has its own entry at the final node (models RB: variable, R4: parameter)
+KM == Con("kM", "le", Minus(Off(V(1), 1), X(1)), CI(4), "control", TRUE, TRUE)
+KMp == Con("kMp", "le", Minus(Off(P(1), 1), X(1)), CI(4), "control", TRUE, TRUE)
 \* vector-valued path constraint with element-wise scale
 KV == VCon("kV", <<X(1), Times(U(1), Tm)>>, <<CI(5), Plus(CI(3), X(1))>>, "control", TRUE, FALSE, <<R(2), Q(1, 2)>>)
 ConIds == {"k1", "k2", "k3", "k4", "k5", "k6", "k7", "k8", "k9", "kA", "kB"}
 ConOf(id) == CASE id = "k1" -> K1 [] id = "k2" -> K2 [] id = "k3" -> K3 [] id = "k4" -> K4
                [] id = "k5" -> K5 [] id = "k6" -> K6 [] id = "k7" -> K7 [] id = "k8" -> K8
-               [] id = "k9" -> K9 [] id = "kA" -> KA [] id = "kB" -> KB [] id = "kR" -> KR [] id = "kS" -> KS [] id = "kV" -> KV
+               [] id = "k9" -> K9 [] id = "kA" -> KA [] id = "kB" -> KB [] id = "kR" -> KR [] id = "kS" -> KS [] id = "kV" -> KV [] id = "kM" -> KM [] id = "kMp" -> KMp
 
 (***************************************************************************)
 (* Objective terms.  Integrands live in d.quads and are referred to by     *)
